@@ -38,12 +38,18 @@ class Report:
         self.vacuity = []
 
 
-def prove(contracts, registry, repo=None, timeout_ms=20000, statics=(), cvc5_all=False):
+def prove(contracts, registry, repo=None, timeout_ms=20000, statics=(), cvc5_all=False, lemmas=()):
+    import hashlib
     import multiprocessing as mp
     from .solve import discharge_texts
     t0 = time.time()
     jobs = [(c.name, repo) for c in contracts]
     reports, items = [], []
+    for fn in lemmas:
+        for ob in fn():
+            text = ob.smt2()
+            items.append(dict(oid=ob.oid, kind=ob.kind, lineno=0, hash=hashlib.sha1(text.encode()).hexdigest()[:16],
+                              smt2=text, note=ob.note))
     if jobs:
         with mp.get_context("fork").Pool(min(16, len(jobs))) as pool:
             for summary, its, used in pool.map(_gen_worker, jobs):
@@ -56,6 +62,9 @@ def prove(contracts, registry, repo=None, timeout_ms=20000, statics=(), cvc5_all
     for d in results:
         if d["kind"] == "vacuity":
             fn = d["oid"].split("#")[0].split("[")[0]
+            if d["verdict"] == "discharged" and not any(r.name == fn for r in reports):
+                d2 = dict(d, verdict="refuted", backend="vacuity", note="hypotheses of this lemma are contradictory")
+                kept.append(d2)
             for r in reports:
                 if r.name == fn:
                     r.vacuity.append((d["oid"], d.get("z3")))
